@@ -8,14 +8,16 @@ import sys
 
 HERE = os.path.dirname(os.path.dirname(os.path.abspath(__file__)))
 extra = {'C13-B': ['C13', 'C16'], 'C05-B': ['C17'], 'C17-B': ['C17'], 'C02-A': ['C02', 'C03', 'C05'], 'C05': ['C05', 'C10'],
-         'C10-B': ['C10', 'C05']}
+         'C10-B': ['C10', 'C05'], 'C12-E': ['C12', 'C16'], 'C18-F': ['C18', 'C12'], 'C11-F': ['C11', 'C10']}
 rows = []
-for name in sorted(os.listdir(os.path.join(HERE, 'seeded'))):
+import concurrent.futures as cf
+
+
+def one(name):
     mp = os.path.join(HERE, 'seeded', name, 'meta.json')
     m = json.load(open(mp))
-    if str(m.get('status', '')).startswith('obsolete'):
-        rows.append((name, 'obsolete', ''))
-        continue
+    if str(m.get('status', '')).startswith(('obsolete', 'rejected')):
+        return (name, 'obsolete', '')
     props = extra.get(name, [m['breaks']])
     out = subprocess.run([os.path.join(HERE, 'tools', 'selftest.py'), os.path.join(HERE, 'seeded', name, 'patch.diff')] + props,
                          capture_output=True, text=True, cwd=HERE).stdout
@@ -27,8 +29,15 @@ for name in sorted(os.listdir(os.path.join(HERE, 'seeded'))):
     m['caught_by'] = caught
     m['check_result'] = ' || '.join(l[:300] for l in lines)
     json.dump(m, open(mp, 'w'), indent=1)
-    rows.append((name, 'caught by ' + ','.join(caught) if caught else 'MISSED', lines[0][:140] if lines else out[-200:]))
-    print(rows[-1], flush=True)
+    return (name, 'caught by ' + ','.join(caught) if caught else 'MISSED', lines[0][:140] if lines else out[-200:])
+
+
+only = sys.argv[1:]
+names = [n for n in sorted(os.listdir(os.path.join(HERE, 'seeded'))) if not only or any(n.startswith(o) for o in only)]
+with cf.ThreadPoolExecutor(max_workers=int(os.environ.get('SEEDSTATUS_JOBS', '2'))) as ex:
+    for row in ex.map(one, names):
+        rows.append(row)
+        print(row, flush=True)
 print()
 print('kept and caught: %d, missed: %d, obsolete: %d' % (sum(1 for r in rows if r[1].startswith('caught')),
                                                           sum(1 for r in rows if r[1] == 'MISSED'),
